@@ -23,7 +23,7 @@ RULE = ("one history per case: a few records (with rotations, cleanup, compressi
 
 def gen(rng, tier, k=None):
     naming = rng.choice(["num", "num", "numd", "tsd", "ts"])
-    cleanup = rng.choice(["n", "n", "l1", "g1", "b1.1", "b0.1"])
+    cleanup = rng.choice(["n", "n", "l1", "g1", "b1.1", "b0.1", "g3", "b0.3", "b1.2", "g9"])
     cap = rng.choice([None, None, None, 16])
     cfg = g.Cfg(crit="s%d" % rng.choice([0, 6, 12]), naming=naming, cleanup=cleanup, cap=cap, link=rng.random() < 0.2)
     ops = ["B:" + cfg.token()]
@@ -51,7 +51,13 @@ def corpus():
     c = g.Cfg(crit="s6", naming="num", cleanup="g1")
     return ["flw %d 0 ; B:%s W:%s W:%s W:%s KI:%d W:%s W:%s CR SN B:%s W:%s S SN" % (
         g.T0, c.token(), g.hx(b"A1__\n"), g.hx(b"B2__\n"), g.hx(b"C3__\n"), k, g.hx(b"D4__\n"), g.hx(b"E5__\n"), c.token(), g.hx(b"F6__\n"))
-        for k in range(0, 9)]
+        for k in range(0, 9)] + [
+        # limits wide enough that the file whose compression was interrupted is compressed again by the restarted logger
+        "flw %d 0 ; B:%s W:%s W:%s W:%s KI:%d W:%s W:%s CR SN B:%s W:%s T S SN" % (
+        g.T0, c3.token(), g.hx(b"A1__\n"), g.hx(b"B2__\n"), g.hx(b"C3__\n"), k, g.hx(b"D4__\n"), g.hx(b"E5__\n"), c3a.token(), g.hx(b"F6__\n"))
+        for c3, c3a in [(g.Cfg(crit="s6", naming=nm, cleanup=cl), g.Cfg(crit="s6", naming=nm, cleanup=cl, append=ap))
+                        for nm in ("num", "numd", "tsd") for cl in ("g3", "b0.3") for ap in (False, True)]
+        for k in range(2, 9)]
 
 
 def generate(rng, tier):
@@ -70,10 +76,6 @@ def classify(body, impl, verdict):
     # the directory the kill left: the first snapshot (taken right after CR)
     snaps = [t for t in impl.split(" ") if t.startswith("s{")]
     names = [e.split("=")[0] for e in snaps[0][2:snaps[0].index("}")].split(",") if e] if snaps else []
-    if any(n + "2e677a" in names for n in names):
-        return "original-next-to-its-archive-after-kill-during-compression"
-    if naming[0] == "tsd" and cfgs[-1][4] == "1" and "2e726573746172742d" in impl:
-        return "direct-timestamps-append-onto-base-with-restart-siblings"
     return None
 
 
